@@ -25,6 +25,17 @@ Judge(e) ==
               IF Has(r, "ok") THEN Chk(RIsCeil(FromBE(r.v_n), x), "C15", Sig(e, "wrong-value"), sc, [got |-> r.v_n, n |-> x.n, d |-> x.d])
                                    /\ Obl("C15", sc, <<"exu", Len(e.mem_n), Len(e.steps_n), Len(r.v_n)>>)
               ELSE Chk(OverflowCeil(x), "C15", Sig(e, "spurious-error"), sc, r.err)
+    [] e.fn = "script" ->
+         \* min_script_fee(transaction): ceiling of the price of the SUMMED units of all redeemers (not a sum of ceilings)
+         LET pm == R(N(e, "mn_n"), N(e, "md_n")) ps == R(N(e, "sn_n"), N(e, "sd_n"))
+             RECURSIVE Sum(_,_,_) Sum(i, k, acc) == IF i > Len(e.reds) THEN acc ELSE Sum(i + 1, k, Add(acc, FromBE(e.reds[i][k])))
+             mem == Sum(1, 1, Zero) steps == Sum(1, 2, Zero) IN
+         IF pm.d = Zero \/ ps.d = Zero THEN Note("C15", "zero-denominator", sc, 0)
+         ELSE IF ~FitsU64(mem) \/ ~FitsU64(steps) THEN Note("C15", "execution-unit total above 2^64-1 (outside the quantifier)", sc, 0)
+         ELSE LET x == ExUnitsCostExact(mem, steps, pm, ps) IN
+              IF Has(r, "ok") THEN Chk(RIsCeil(FromBE(r.v_n), x), "C15", Sig(e, "wrong-value"), sc, [got |-> r.v_n, n |-> x.n, d |-> x.d, redeemers |-> Len(e.reds)])
+                                   /\ Obl("C15", sc, <<"script", Len(e.reds), Len(ToBE(mem, 0)), Len(ToBE(steps, 0)), Len(r.v_n)>>)
+              ELSE Chk(OverflowCeil(x), "C15", Sig(e, "spurious-error"), sc, r.err)
     [] e.fn = "lin" ->
          LET x == LinearFee(N(e, "size_n"), N(e, "a_n"), N(e, "b_n")) IN
          IF Has(r, "ok") THEN Chk(FromBE(r.v_n) = x, "C15", Sig(e, "wrong-value"), sc, [got |-> r.v_n, want |-> ToBE(x, 0)])
